@@ -904,6 +904,12 @@ def simplify(t, facts, _cache=None):
                 # b[a:e][c:] == b[a+c:e] for an exact inner slice (both empty when a+c > e)
                 return T("slice", inner.a[0], lin_term(linearize(a) + linearize(c)), inner.a[2], ty="bytes")
             return x
+        if x.k == "gamma" and x.a[2].k == "const" and x.a[2].a[0] == 0 and x.a[2].a[0] is not False:
+            # γ(v ? v : 0) and γ(v != 0 ? v : 0) are v
+            g_ = x.a[0]
+            v_ = g_.a[1] if (g_.k == "un" and g_.a[0] == "bool") else (g_.a[1] if (g_.k == "op" and g_.a[0] == "!=" and is_const(g_.a[2], 0)) else None)
+            if v_ is not None and v_ == x.a[1]:
+                return x.a[1]
         if x.k == "gamma" and x.ty == "int" and not (x.a[0].k == "un" and x.a[0].a[0] == "bool"):
             # integer alternatives that coincide wherever the gate holds: γ(c ? A : B) == B if c entails A == B
             # (an LV's packet length γ(L == 0 ? 1 : L + 1) is L + 1).  Inner gates equal to c are resolved first.
